@@ -16,6 +16,24 @@ import ast
 _NEG = {ast.Eq: ast.NotEq, ast.NotEq: ast.Eq, ast.Is: ast.IsNot, ast.IsNot: ast.Is, ast.In: ast.NotIn, ast.NotIn: ast.In}
 
 
+def inert(e) -> bool:
+    """evaluating `e` cannot do anything observable: constants, plain names, f-strings / concatenations /
+    tuples of those, and str() / repr() of those (an attribute read or any other call can raise or run code)"""
+    if isinstance(e, (ast.Constant, ast.Name)):
+        return True
+    if isinstance(e, ast.JoinedStr):
+        return all(inert(v) for v in e.values)
+    if isinstance(e, ast.FormattedValue):
+        return inert(e.value)
+    if isinstance(e, ast.BinOp) and isinstance(e.op, (ast.Add, ast.Mod)):
+        return inert(e.left) and inert(e.right)
+    if isinstance(e, ast.Tuple):
+        return all(inert(v) for v in e.elts)
+    if isinstance(e, ast.Call) and isinstance(e.func, ast.Name) and e.func.id in ("str", "repr") and len(e.args) == 1 and not e.keywords:
+        return inert(e.args[0])
+    return False
+
+
 class Canon(ast.NodeTransformer):
     def __init__(self):
         self.flipped = 0
@@ -67,19 +85,6 @@ class Canon(ast.NodeTransformer):
             if isinstance(s, ast.Expr) and isinstance(s.value, ast.Call) and isinstance(s.value.func, ast.Attribute) and isinstance(s.value.func.value, ast.Name) and s.value.func.value.id.lower().endswith("logger") and s.value.func.attr in ("debug", "info", "warning", "error", "exception", "critical", "log"):
                 # only when evaluating the arguments cannot do anything: constants, plain names, and
                 # f-strings / concatenations of those (an attribute read or a call in a log argument can raise)
-                def inert(e):
-                    if isinstance(e, (ast.Constant, ast.Name)):
-                        return True
-                    if isinstance(e, ast.JoinedStr):
-                        return all(inert(v) for v in e.values)
-                    if isinstance(e, ast.FormattedValue):
-                        return inert(e.value)
-                    if isinstance(e, ast.BinOp) and isinstance(e.op, (ast.Add, ast.Mod)):
-                        return inert(e.left) and inert(e.right)
-                    if isinstance(e, ast.Tuple):
-                        return all(inert(v) for v in e.elts)
-                    return False
-
                 if all(inert(a) for a in s.value.args) and all(inert(k.value) for k in s.value.keywords):
                     self.stripped += 1
                     continue
